@@ -105,6 +105,7 @@ func (o *c11Origin) obs(id string) []c11Hit {
 
 type polSpec struct {
 	coq     string                                   // Coq constructor application, no outer parens
+	desc    string                                   // human-readable form for failure reports (default: coq)
 	mk      func() req.RedirectPolicy                // the real policy value (nil entry allowed)
 	permit  func(t authority, via []authority) bool  // independent oracle; nil = never refuses
 	always  map[string]bool                          // canonical header names an AlwaysCopy policy re-adds
@@ -146,7 +147,7 @@ func specAllowed(domain bool, as []authority) polSpec {
 		id, name = oracleDomain, "PAllowedDomain "
 		mk = func() req.RedirectPolicy { return req.AllowedDomainRedirectPolicy(hs...) }
 	}
-	return polSpec{coq: name + hk.CoqStrList(hs), mk: mk, limit: -1, permit: func(t authority, via []authority) bool {
+	return polSpec{coq: name + hk.CoqStrList(hs), desc: name[1:] + "(" + strings.Join(hs, ",") + ")", mk: mk, limit: -1, permit: func(t authority, via []authority) bool {
 		for _, a := range as {
 			if id(a) == id(t) {
 				return true
@@ -167,7 +168,7 @@ func specAlwaysCopy(rng *hk.Rand) polSpec {
 			always[c] = true
 		}
 	}
-	return polSpec{coq: "PAlwaysCopy " + hk.CoqList(canon), mk: func() req.RedirectPolicy { return req.AlwaysCopyHeaderRedirectPolicy(names...) },
+	return polSpec{coq: "PAlwaysCopy " + hk.CoqList(canon), desc: "AlwaysCopy(" + strings.Join(names, ",") + ")", mk: func() req.RedirectPolicy { return req.AlwaysCopyHeaderRedirectPolicy(names...) },
 		always: always, limit: -1}
 }
 
@@ -214,7 +215,11 @@ func specsCoq(ss []polSpec) (list string, plain []string) {
 	var cp []string
 	for _, s := range ss {
 		cp = append(cp, "("+s.coq+")")
-		plain = append(plain, s.coq)
+		if s.desc != "" {
+			plain = append(plain, s.desc)
+		} else {
+			plain = append(plain, s.coq)
+		}
 	}
 	return hk.CoqList(cp), plain
 }
@@ -414,6 +419,7 @@ func applyClientCreds(c *req.Client, cred int) {
 // judgeChain: the property decided on the observation, without the model.
 func judgeChain(r *hk.Run, kind string, specs []polSpec, p c11Plan, res c11Result, input map[string]interface{}) {
 	obs := res.obs
+	fail := func(f hk.Failure) { r.Count("oracle-failures." + kind); r.Fail(f) } // counted beyond hk's cap of recorded failures
 	// structure: the hosts contacted are the initial host followed by a prefix of the targets
 	okPrefix := len(obs) >= 1 && len(obs) <= len(p.targets)+1
 	if okPrefix {
@@ -425,11 +431,11 @@ func judgeChain(r *hk.Run, kind string, specs []polSpec, p c11Plan, res c11Resul
 		}
 	}
 	if !okPrefix {
-		r.Fail(hk.Failure{Sig: kind + ":not-prefix", What: "hosts contacted are not the initial host followed by a prefix of the redirect targets", Input: input, Got: obs})
+		fail(hk.Failure{Sig: kind + ":not-prefix", What: "hosts contacted are not the initial host followed by a prefix of the redirect targets", Input: input, Got: obs})
 		return
 	}
 	if res.refused && len(obs) == len(p.targets)+1 && len(p.targets) != 0 {
-		r.Fail(hk.Failure{Sig: kind + ":refused-but-all-sent", What: "chain reported refused although every target received a request", Input: input, Got: obs})
+		fail(hk.Failure{Sig: kind + ":refused-but-all-sent", What: "chain reported refused although every target received a request", Input: input, Got: obs})
 	}
 	// hop decisions: 1 + the number of leading hops EVERY policy of this client permits
 	via := []authority{p.init}
@@ -449,12 +455,12 @@ func judgeChain(r *hk.Run, kind string, specs []polSpec, p c11Plan, res c11Resul
 		via = append(via, t)
 	}
 	if len(obs) != wantSent {
-		r.Fail(hk.Failure{Sig: kind + ":hops-followed", What: "number of hops followed differs from what the policies configured on this client permit (every policy must permit each hop; a refused host receives nothing)",
+		fail(hk.Failure{Sig: kind + ":hops-followed", What: "number of hops followed differs from what the policies configured on this client permit (every policy must permit each hop; a refused host receives nothing)",
 			Input: input, Got: len(obs), Want: wantSent})
 		return
 	}
 	if wantRefused := wantSent < len(p.targets)+1; res.refused != wantRefused {
-		r.Fail(hk.Failure{Sig: kind + ":refusal-reported", What: "the caller is told the chain was refused / completed contrary to what happened", Input: input, Got: fmt.Sprintf("refused=%v err=%q", res.refused, res.err), Want: wantRefused})
+		fail(hk.Failure{Sig: kind + ":refusal-reported", What: "the caller is told the chain was refused / completed contrary to what happened", Input: input, Got: fmt.Sprintf("refused=%v err=%q", res.refused, res.err), Want: wantRefused})
 	}
 	// headers: Go's cross-origin rule, sticky; AlwaysCopy re-adds what it names; never duplicated;
 	// a non-sensitive header always travels; Go's method rewriting
@@ -465,7 +471,7 @@ func judgeChain(r *hk.Run, kind string, specs []polSpec, p c11Plan, res c11Resul
 		}
 	}
 	if obs[0].H != p.hdr {
-		r.Fail(hk.Failure{Sig: kind + ":first-request-headers", What: "the first request does not carry the caller's headers as given", Input: input, Got: obs[0].H, Want: p.hdr})
+		fail(hk.Failure{Sig: kind + ":first-request-headers", What: "the first request does not carry the caller's headers as given", Input: input, Got: obs[0].H, Want: p.hdr})
 		return
 	}
 	ih := urlHostname(p.init.render())
@@ -501,7 +507,7 @@ func judgeChain(r *hk.Run, kind string, specs []polSpec, p c11Plan, res c11Resul
 			r.Count("hop.within-initial-domain")
 		}
 		if h.H != want {
-			r.Fail(hk.Failure{Sig: fmt.Sprintf("%s:headers:hop%d", kind, k), What: "headers delivered to a followed hop (Authorization, Www-Authenticate, Cookie, Cookie2, X-Token) differ from Go's cross-origin rule + the AlwaysCopy policies: sensitive ones only while the chain stays with the initial host or its subdomains unless named by AlwaysCopy, never duplicated, the others always",
+			fail(hk.Failure{Sig: fmt.Sprintf("%s:headers:hop%d", kind, k), What: "headers delivered to a followed hop (Authorization, Www-Authenticate, Cookie, Cookie2, X-Token) differ from Go's cross-origin rule + the AlwaysCopy policies: sensitive ones only while the chain stays with the initial host or its subdomains unless named by AlwaysCopy, never duplicated, the others always",
 				Input: input, Got: h.H, Want: want})
 			break
 		}
@@ -517,7 +523,7 @@ func judgeChain(r *hk.Run, kind string, specs []polSpec, p c11Plan, res c11Resul
 			body = len(p.body)
 		}
 		if h.Method != method || h.Body != body {
-			r.Fail(hk.Failure{Sig: fmt.Sprintf("%s:method-body:hop%d", kind, k), What: "method/body of the redirected request differ from Go's rule (301/302/303: POST->GET without body, 307/308: method unchanged, body of the first request)",
+			fail(hk.Failure{Sig: fmt.Sprintf("%s:method-body:hop%d", kind, k), What: "method/body of the redirected request differ from Go's rule (301/302/303: POST->GET without body, 307/308: method unchanged, body of the first request)",
 				Input: input, Got: fmt.Sprintf("%s body=%d", h.Method, h.Body), Want: fmt.Sprintf("%s body=%d", method, body)})
 			break
 		}
@@ -542,7 +548,7 @@ func c11EndToEnd(r *hk.Run, rng *hk.Rand) {
 	defer o.srv.Close()
 	c11Single(r, rng, o, r.Scale(150, 3000))
 	c11Clients(r, rng, o, r.Scale(70, 1400))
-	c11Concurrent(r, rng, o, r.Scale(50, 1000))
+	c11Concurrent(r, rng, o, r.Scale(120, 2400))
 }
 
 // (b1) one chain through a fresh client
@@ -732,13 +738,13 @@ func c11Concurrent(r *hk.Run, rng *hk.Rand, o *c11Origin, n int) {
 		}
 		// policies: the ones that look at the chain's own origin / length come first
 		var specs []polSpec
-		switch rng.Intn(5) {
-		case 0, 1:
+		switch x := rng.Intn(100); {
+		case x < 30:
 			specs = append(specs, specSameHost())
-		case 2:
+		case x < 50:
 			specs = append(specs, specSameDomain())
-		case 3:
-			specs = append(specs, specMax(rng.Range(1, 4)))
+		case x < 90:
+			specs = append(specs, specMax(rng.Range(2, 4)))
 		}
 		specs = append(specs, genSpecs(rng, inits, 0, 2)...)
 		if len(specs) == 0 {
